@@ -389,3 +389,6 @@ PROPS['C11'] = dict(
     bounds='<= 400 virtual s of handshake, 12 packets', trusted_base=TB_SIM,
     assumptions=AS_SIM + ['only fixed (length-independent) transformations; raw UDP mode is skipped (-r) because it bypasses the DNS path the property is about'],
 )
+
+for _k in ('C07', 'C20'):
+    PROPS[_k]['exhaustive_quick'] = True   # their enumerators are the same in both tiers
